@@ -37,6 +37,10 @@ def plan(tier):
     p.append((GG("cluster2.net6 cluster2.net7"), 1 if q else 2, 2))
     p.append((GG("cluster2.net6 cluster2.net7", shared=v1 + v2).variant("/shared=setup"), 1 if q else 2, 1))
     p.append((S.G1("cluster1.net6 cluster2.net6"), 0 if q else 1, 1))
+    # producer and dependant in different clusters (reuse across clusters is part of the default scope)
+    p.append((GG("cluster1.net6 cluster2.net6", shared=v1 + v2).variant("/shared=setup"), 1 if q else 2, 1))
+    p.append((GG("cluster1.net6 cluster1.net7 cluster2.net6", shared=v1 + v2, D=(1.0, 3.0)).variant("/shared=setup"), 1 if q else 2, 1))
+    p.append((GG("cluster1.net6 cluster1.net7 cluster2.net6", params={"pool_scope": "own swarm cluster"}).variant("/scope=own+swarm+cluster"), 0 if q else 1, 1))
     # an unrelated quick test keeps one worker busy, which then meets the producer as a bystander while the dependant runs elsewhere
     v1all = v1 + [("image1_vm1", "connect"), ("vm1", "on_customize")]
     three = "leaves..tutorial1,leaves..tutorial_gui.client_noop,leaves..tutorial_get.explicit_noop"
